@@ -13,18 +13,21 @@ struct _os_segment *gh_seg, *gh_prev;
 /* C17 at contract level: what must hold of the object stack at the moment a memory request made on its behalf fails (the allocator's error
    callback then leaves by longjmp and the owner later deletes the stack).  Only reachable in the sets run with a malloc that may fail. */
 os_t *verif_exit_os;
+#ifdef VERIF_OS_EXIT_CHECK        /* only in the set OS.expand.fail: elsewhere a failing request simply ends the path (alloc_model.h) */
 static void verif_os_exit_check (void);
 #define VERIF_ALLOC_FAIL_HOOK() do { verif_os_exit_check (); __CPROVER_assume (0); } while (0)
+#endif
 #include "alloc_model.h"
+#ifdef VERIF_OS_EXIT_CHECK
 static void verif_os_exit_check (void)
 {
-  if (verif_exit_os == NULL) return;
   __CPROVER_assert (__CPROVER_r_ok (verif_exit_os->os_current_segment, sizeof (struct _os_segment)),
                     "C17 exit assertion: when a memory request fails the object stack still owns its current segment (it can still be emptied or deleted)");
   __CPROVER_assert (__CPROVER_same_object (verif_exit_os->os_top_object_start, verif_exit_os->os_current_segment)
                     && __CPROVER_same_object (verif_exit_os->os_top_object_free, verif_exit_os->os_current_segment),
                     "C17 exit assertion: when a memory request fails the top object still lies in the current segment");
 }
+#endif
 #ifndef CAP
 #define CAP 64
 #endif
